@@ -270,6 +270,7 @@ class FaultInterp {
 
   // returns true when the scenario (some k) violated C09
   bool run_scenario(const Scenario &sc0) {
+    ExtraTag tg09(P09);  // whatever the ledgers report inside a fault scenario is a C09 matter
     Scenario sc = sc0;
     ++scenarios;
     long lim = limit();
